@@ -253,6 +253,9 @@ def numeric_kernel_oracles(rng, res, nmax=200, quick=True):
             res['violations'].append(dict(key='D:positional', what='spectral_diff_matrix(%d, a, b) called positionally differs from spectral_diff_matrix(%d, xmin=a, xmax=b)' % (n, n), n=n, xmin=xmin, L=L))
         if not np.array_equal(np.asarray(spectral_diff_matrix(n)), np.asarray(spectral_diff_matrix(n, xmin=0, xmax=2 * np.pi))):
             res['violations'].append(dict(key='D:default', what='spectral_diff_matrix(%d) differs from the matrix of the interval [0, 2 pi)' % n, n=n))
+        # an interval that ENDS at 0 (xmax = 0 is a legitimate upper end) has the matrix of the same interval moved to start at 0
+        if not np.allclose(np.asarray(spectral_diff_matrix(n, xmin=-L, xmax=0.0)), np.asarray(spectral_diff_matrix(n, xmin=0.0, xmax=L)), rtol=1e-14, atol=0):
+            res['violations'].append(dict(key='D:xmax-zero', what='spectral_diff_matrix(%d, xmin=-L, xmax=0) differs from spectral_diff_matrix(%d, xmin=0, xmax=L), L=%g' % (n, n, L), n=n, L=L))
         # constants, antisymmetry, circulant
         if np.max(np.abs(D @ np.ones(n))) > 1e-9 * max(1.0, np.max(np.abs(D))) * n:
             res['violations'].append(dict(key='D:constants', what='spectral_diff_matrix(%d) does not annihilate constants' % n))
@@ -286,6 +289,12 @@ def numeric_kernel_oracles(rng, res, nmax=200, quick=True):
             checked += 1
             if np.max(np.abs(got - np.cos(m * xs + ph))) > 1e-8 * n:
                 res['violations'].append(dict(key='interp:mode', what='fourier_interpolation: mode %d of N=%d not reproduced at arbitrary abscissae (%.3g)' % (m, n, np.max(np.abs(got - np.cos(m * xs + ph))))))
+            # abscissae given as integers (np.arange, a list of ints) are evaluated like the same numbers given as floats
+            xi_ = np.arange(-2, 5)
+            gi_ = np.asarray(fourier_interpolation(np.cos(m * xk + ph), xi_), dtype=float); gf_ = np.asarray(fourier_interpolation(np.cos(m * xk + ph), xi_.astype(float)), dtype=float)
+            checked += 1
+            if gi_.shape != gf_.shape or np.max(np.abs(gi_ - gf_)) > 1e-12:
+                res['violations'].append(dict(key='interp:int', what='fourier_interpolation at integer-typed abscissae differs from the same abscissae as floats by %.3g (N=%d)' % (float(np.max(np.abs(gi_ - gf_))) if gi_.shape == gf_.shape else float('nan'), n)))
             # one abscissa vector that MIXES nodes (also shifted by whole periods) with off-grid points: every entry is what it is when evaluated alone
             xmix = np.array([xs[0], xk[int(rng.integers(0, n))], xs[1], xk[int(rng.integers(0, n))] + 2 * np.pi, xs[2], xk[0] - 4 * np.pi])
             gotm = np.asarray(fourier_interpolation(np.cos(m * xk + ph), xmix), dtype=float)
